@@ -513,17 +513,30 @@ def impl(case):
                     name += '(skipped)'
             elif name == 'zero_derived':
                 # switch quantum numbers off on a DERIVED object; the objects it was built from must keep obeying their own lists
-                k = int(rs.integers(0, 4))
+                # ... and the derived object itself must obey its (now all-zero) lists: every list zeroed, none forgotten
+                k = int(rs.integers(0, 5))
+                derived = []
                 if k == 0 and not obig and max(ops[b].bond_dims) <= 8:
-                    (ops[a] + ops[b]).zero_qnumbers() if hasattr(ops[a], 'zero_qnumbers') else None
+                    X0 = ops[a] + ops[b]
+                    if hasattr(X0, 'zero_qnumbers'):
+                        X0.zero_qnumbers(); derived.append(('mpo', X0))
                     X = ops[a] + ops[b]; X.qd.fill(0); [q.fill(0) for q in X.qD]
                 elif k == 1 and not big and not obig:
-                    ptn.apply_operator(ops[a], psi).zero_qnumbers()
+                    X0 = ptn.apply_operator(ops[a], psi); X0.zero_qnumbers(); derived.append(('mps', X0))
                 elif k == 2 and max(ops[a].bond_dims) * max(ops[b].bond_dims) <= 40:
                     X = ops[a] @ ops[b]; X.qd.fill(0); [q.fill(0) for q in X.qD]
-                else:
+                elif k == 3:
                     X = ptn.MPO(ops[a].qd, ops[a].qD, fill=1.0); X.qd.fill(0); [q.fill(0) for q in X.qD]
-                    Y = ptn.MPS(psi.qd, psi.qD, fill=1.0); Y.zero_qnumbers()
+                    Y = ptn.MPS(psi.qd, psi.qD, fill=1.0); Y.zero_qnumbers(); derived.append(('mps', Y))
+                else:
+                    import copy as _copy
+                    Y = _copy.deepcopy(psi); Y.zero_qnumbers(); derived.append(('mps', Y))
+                for kind_, obj_ in derived:
+                    m_ = G.mps_sparsity_ok(obj_) if kind_ == 'mps' else G.mpo_sparsity_ok(obj_)
+                    if m_:
+                        viol.append('after step %d (%s): object after zero_qnumbers(): %s' % (step, name, m_))
+                    if any(np.any(np.asarray(q) != 0) for q in list(obj_.qD) + [obj_.qd]):
+                        viol.append('after step %d (%s): zero_qnumbers() left a non-zero quantum number' % (step, name))
             elif name == 'zero_op':
                 # a freshly built MPO from a constructor (graph-to-MPO conversion)
                 ops[1] = _hamiltonian(case, rs, qd=np.array(H.qd))
